@@ -104,23 +104,25 @@ func runCLI(dir string, args []string, stdin string, env []string) cliResult {
 }
 
 type cliCase struct {
-	label    string
-	flags    string // help | version | err | ok
-	args     []string
-	stdin    string
-	env      []string
-	config   string // content of .config in the working directory ("" = none)
-	format   string
-	split    bool
-	reqText  string
-	reqJ     *jnode // nil = not JSON
-	user, pw string
-	key      string
-	auth     replySpec
-	users    []replySpec
-	needsDev bool
-	mustFail bool           // the scenario contains a connection / authentication / protocol failure
-	replyMs  []rscp.Message // the one reply of an unsplit healthy exchange, for the Go-side output oracle of C13
+	label       string
+	flags       string // help | version | err | ok
+	args        []string
+	stdin       string
+	env         []string
+	config      string // content of .config in the working directory ("" = none)
+	format      string
+	split       bool
+	reqText     string
+	reqJ        *jnode // nil = not JSON
+	user, pw    string
+	key         string
+	auth        replySpec
+	users       []replySpec
+	needsDev    bool
+	mustFail    bool           // the scenario contains a connection / authentication / protocol failure
+	replyMs     []rscp.Message // the one reply of an unsplit healthy exchange, for the Go-side output oracle of C13
+	mustSucceed bool           // valid options, valid request, a device that answers everything: status 0 and a document
+	anyOutcome  bool           // the model's prediction is not compared (the outcome depends on the environment); the contract is still judged
 }
 
 func (c *cliCase) op() string {
@@ -236,7 +238,9 @@ func cliExec(rundir string, n int, c *cliCase) (impl, prop string) {
 			}
 		}
 	default:
-		if r.stdout != "" || r.stderr == "" {
+		if c.mustSucceed {
+			prop = fmt.Sprintf("FAIL C15 a valid request answered by the device ends with status %d: %s ;; FAIL C13 the answer of the device is not reported: %s", r.status, trunc(strings.ReplaceAll(r.stderr, "\n", " / "), 120), trunc(strings.ReplaceAll(r.stderr, "\n", " / "), 120))
+		} else if r.stdout != "" || r.stderr == "" {
 			prop = fmt.Sprintf("FAIL C15 failure (status %d) must print a diagnostic on standard error and nothing on standard output (stdout %d bytes, stderr %d bytes)", r.status, len(r.stdout), len(r.stderr))
 		}
 	}
@@ -408,6 +412,56 @@ func init() {
 			c.args = append(c.args, c.reqText)
 			add(c)
 		}
+		// tiny and odd request texts from a file and from standard input (one or two bytes, an incomplete UTF-8 sequence, a
+		// byte order mark with and without a request behind it): a diagnostic, never a trace
+		for _, txt := range []string{"\xef", "\xef\xbb", "\xef\xbb\xbf", "\xef\xbb\xbf[\"INFO_REQ_SERIAL_NUMBER\"]", "\xff", "\xfe\xff", "[", "]", "{", "\"", "0", " ", "\n", "\x00", "\xc3"} {
+			for _, way := range []string{"file", "stdin"} {
+				c := base("odd request text from " + way + " " + strconv.Quote(txt))
+				c.reqText, c.reqJ, c.mustFail = txt, nil, true
+				c.users = []replySpec{frameReply([]rscp.Message{{Tag: rscp.INFO_SERIAL_NUMBER, DataType: rscp.CString, Value: "s"}})}
+				if way == "file" {
+					c.args = append(c.args, "-file", "{REQFILE}")
+				} else {
+					c.stdin = txt
+				}
+				add(c)
+			}
+		}
+		// the host given with a port, in brackets, with a scheme, empty port: a diagnostic (or a working connection), never a trace
+		for _, h := range []string{"127.0.0.1:{PORT}", "127.0.0.1:", "[::1]:{PORT}", "[127.0.0.1]", "tcp://127.0.0.1", "127.0.0.1/", "localhost:{PORT}", ":{PORT}", "::1"} {
+			c := base("host written as " + h)
+			c.args = []string{"-host", h, "-port", "{PORT}", "-user", "cliuser", "-password", "clipassword", "-key", "clikey"}
+			ms := mkReq(c, 1, true)
+			answers(c, ms)
+			c.args = append(c.args, c.reqText)
+			c.anyOutcome = true // whether such a host connects depends on the resolver; the contract is judged, not the model
+			add(c)
+		}
+		// replies that carry the tags the library masks in its log (password, pass phrase), replies of data type Error with
+		// named and nameless codes — every format, split and unsplit: printed as received
+		for k, m := range []rscp.Message{{Tag: rscp.RSCP_AUTHENTICATION_PASSWORD, DataType: rscp.CString, Value: "not-masked-in-output"},
+			{Tag: rscp.RSCP_REQ_SET_ENCRYPTION_PASSPHRASE, DataType: rscp.CString, Value: "phrase"},
+			{Tag: rscp.BAT_DATA, DataType: rscp.Error, Value: rscp.RscpError(2)}, {Tag: rscp.BAT_DATA, DataType: rscp.Error, Value: rscp.RscpError(77)},
+			{Tag: rscp.RSCP_GENERAL_ERROR, DataType: rscp.Error, Value: rscp.RscpError(7)}} {
+			for _, f := range []string{"json", "jsonsimple", "jsonmerged"} {
+				for _, split := range []bool{false, true} {
+					c := base(fmt.Sprintf("reply kind %d", k))
+					c.format, c.split, c.mustSucceed = f, split, true
+					mkReq(c, 1, true)
+					c.replyMs = []rscp.Message{m, {Tag: rscp.BAT_DATA, DataType: rscp.Container, Value: []rscp.Message{m}}}
+					if split {
+						c.replyMs = []rscp.Message{m}
+					}
+					c.users = []replySpec{frameReply(c.replyMs)}
+					c.args = append(c.args, "-output", f)
+					if split {
+						c.args = append(c.args, "-splitrequests")
+					}
+					c.args = append(c.args, c.reqText)
+					add(c)
+				}
+			}
+		}
 		// unusual but legal user names and passwords on the command line
 		for _, v := range []string{"@home", "@", "a@", "user@example.org", "ä€", "%s%d", "a b", "-"} {
 			c := base("unusual user name " + strconv.Quote(v))
@@ -474,7 +528,7 @@ func init() {
 		for k, str := range []string{`C:\users\u0026\e3dc`, `\u003c`, `a\\u003eb`, `&<>`, `\u0026amp;`, `"quoted"`, `back\slash\`, "tab\tnew\nline", "nul\x00byte", "é€😀", "\u2028\u2029", `{"json":"inside"}`, `]`, ``} {
 			for _, f := range []string{"json", "jsonsimple", "jsonmerged"} {
 				c := base("string value " + strconv.Quote(str))
-				c.format = f
+				c.format, c.mustSucceed = f, true
 				mkReq(c, 1, true)
 				c.replyMs = []rscp.Message{{Tag: rscp.INFO_SERIAL_NUMBER, DataType: rscp.CString, Value: str},
 					{Tag: rscp.BAT_DATA, DataType: rscp.Container, Value: []rscp.Message{{Tag: rscp.BAT_DEVICE_NAME, DataType: rscp.CString, Value: str}}}}
@@ -495,7 +549,7 @@ func init() {
 			m2 := g.responseOfType(t, dt)
 			for _, f := range []string{"json", "jsonsimple", "jsonmerged"} {
 				c := base(fmt.Sprintf("same tag twice dt=%d", dt))
-				c.format = f
+				c.format, c.mustSucceed = f, true
 				mkReq(c, 1, true)
 				c.replyMs = []rscp.Message{m1, m2, {Tag: rscp.BAT_DATA, DataType: rscp.Container, Value: []rscp.Message{m2, m1}}}
 				c.users = []replySpec{frameReply(c.replyMs)}
@@ -638,6 +692,16 @@ func init() {
 			}
 		}
 		for i, c := range cases {
+			if c.anyOutcome {
+				// judged by the process contract alone: in a case whose outcome depends on the environment only a trace,
+				// a hang or output on the wrong stream is a failure
+				pr := results[i].prop
+				if strings.Contains(pr, "the exchange failed but") {
+					pr = "pass"
+				}
+				cw.add("skip", "skip", "N cli "+c.label, pr)
+				continue
+			}
 			cw.add(c.op(), results[i].impl, "N cli "+c.label, results[i].prop)
 		}
 	}
